@@ -36,18 +36,6 @@ func VerifErrClass(err error) string {
 	return "other:" + err.Error()
 }
 
-// VerifUnwrap removes the taskWrapper layers Submit put around a task; depth = number of layers.
-func VerifUnwrap(t Task) (inner Task, depth int) {
-	for {
-		w, ok := t.(*taskWrapper)
-		if !ok {
-			return t, depth
-		}
-		t = w.t
-		depth++
-	}
-}
-
 // VerifSnapshot reads the pool's fields WITHOUT taking its locks (the lock-step controller calls it
 // only while every goroutine of the pool is stopped at a yield point or parked).
 func (b *OnDemandBlockTaskPool) VerifSnapshot() string {
